@@ -115,6 +115,31 @@ func buildTailBase(rng *rand.Rand, seed uint32, nseg int, endMod int, around4096
 	return tb, nil
 }
 
+// addEmptyNewest adds a header-only segment with the next id and the next sequence number to the base: the state a crash
+// leaves right after a rollover created the next segment and before its first record. It returns the new segment's path.
+func (tb *tailBase) addEmptyNewest() string {
+	var names []string
+	for n := range tb.Image {
+		names = append(names, filepath.Base(n))
+	}
+	var maxID uint16
+	var maxSeq uint64
+	for _, sn := range decoder.SortSegments(names) {
+		if sn.ID > maxID {
+			maxID = sn.ID
+		}
+		if sn.Seq > maxSeq {
+			maxSeq = sn.Seq
+		}
+	}
+	last := tb.Segments[len(tb.Segments)-1]
+	name := filepath.Join("db", fmt.Sprintf("%05d-%d.psg", maxID+1, maxSeq+1))
+	tb.Image[name] = append([]byte(nil), tb.Image[last][:512]...)
+	tb.Segments = append(tb.Segments, name)
+	tb.Desc += "; plus a header-only newest segment " + filepath.Base(name)
+	return name
+}
+
 // withTail returns a copy of the image with tail appended to segment path seg.
 func (tb *tailBase) withTail(seg string, tail []byte) crashfs.Image {
 	im := crashfs.Image{}
